@@ -172,7 +172,7 @@ def parse_response(payload):
 	if not payload.endswith(b"\0"):
 		return None
 	try:
-		txt = payload[:-1].decode("ascii")
+		txt = payload[:-1].decode("utf-8")
 	except UnicodeDecodeError:
 		return None
 	if "\0" in txt:
